@@ -365,6 +365,16 @@ class Body:
         # strip trailing derefs for the purpose of following
         proj = list(pl["p"])
         base = pl["l"]
+        np_ = [p for p in proj if p != "deref"]
+        if np_ and isinstance(np_[0], dict) and "f" in np_[0] and not np_[0].get("adt"):
+            # a component of a tuple literal: `(a, b).1` is b
+            ds0 = self.whole_defs(base)
+            if len(ds0) == 1 and ds0[0][0] == "stmt" and ds0[0][3]["rv"]["k"] == "agg" and ds0[0][3]["rv"]["what"] == "tuple" \
+                    and len(self.defs.get(base, [])) == 1 and np_[0]["f"] < len(ds0[0][3]["rv"]["ops"]):
+                o = ds0[0][3]["rv"]["ops"][np_[0]["f"]]
+                if o.get("k") == "const":
+                    return ("const", o) if len(np_) == 1 else ("place", pl)
+                return self.origin({"l": o["pl"]["l"], "p": list(o["pl"]["p"]) + np_[1:]}, through_calls, _depth + 1)
         lit = self._variant_literal_ops(base, [p for p in proj if p != "deref"])
         if lit is not None and len(lit[0]) == 1:
             o = lit[0][0]
@@ -604,6 +614,87 @@ class Body:
                     out |= self.atoms(fo, depth, _seen, interproc)
                 if interproc:
                     out |= interproc(t, depth)
+        return out
+
+    def reaching_literals(self, local, bb, path=(), upto=None, within=None):
+        """Like reaching_variants, but returns the reaching enum-literal rvalues themselves [(block, rvalue)], or None.
+        within: only definitions on paths that stay inside this set of blocks are followed (e.g. everything reachable
+        from one edge of a test)."""
+        acc = []
+        r = self.reaching_variants(local, bb, path, upto=upto, collect=acc, within=within)
+        return None if r is None else acc
+
+    def reaching_variants(self, local, bb, path=(), depth=0, budget=None, upto=None, collect=None, within=None):
+        """Variant names of the enum literals that can be the value of `local` (projected through `path` =
+        ((variant, field), ...)) when control reaches block bb: the definitions that actually reach bb are followed
+        backwards (through whole moves and payload projections of literals). None if some reaching definition is not a
+        literal. Precise on flattened bodies, where every path has been given its own copy of the merge blocks."""
+        budget = budget if budget is not None else [400]
+        out = set()
+        seen = set()
+        work = [(bb, True)]
+        while work:
+            x, start = work.pop()
+            if (x, start) in seen:
+                continue
+            seen.add((x, start))
+            budget[0] -= 1
+            if budget[0] < 0 or depth > 12:
+                return None
+            found = None
+            if not start or True:
+                blk = self.blocks[x]
+                t = blk["term"]
+                stmts = blk["stmts"]
+                if not start and t["k"] == "call" and t["dest"]["l"] == local and not t["dest"]["p"]:
+                    return None
+                if start and upto is not None:
+                    stmts = stmts[:upto]        # only what precedes the use inside the start block
+                for st in reversed(stmts):      # (otherwise the use is the terminator of the start block, or lies later)
+                    if st["lhs"]["l"] == local:
+                        found = st
+                        break
+            if found is None:
+                ps = [p for p in self.pred(x) if p in self.reach and (within is None or p in within)]
+                if not ps:
+                    return None
+                for p in ps:
+                    work.append((p, False))
+                continue
+            if found["k"] != "assign" or found["lhs"]["p"]:
+                return None
+            rv = found["rv"]
+            if rv["k"] == "agg" and rv.get("what") == "adt" and "variant" in rv:
+                if not path:
+                    out.add(rv["variant"])
+                    if collect is not None:
+                        collect.append((x, rv))
+                    continue
+                (v, f), rest = path[0], path[1:]
+                if rv["variant"] != v or f >= len(rv["ops"]):
+                    continue            # this literal has no such payload: the projection is not reached with it
+                o = rv["ops"][f]
+                if o.get("k") in ("move", "copy") and not [p for p in o["pl"]["p"] if p != "deref"]:
+                    sub = self.reaching_variants(o["pl"]["l"], x, rest, depth + 1, budget, upto=self.blocks[x]["stmts"].index(found), collect=collect, within=within)
+                    if sub is None:
+                        return None
+                    out |= sub
+                    continue
+                return None
+            if rv["k"] == "use" and rv["op"].get("k") in ("move", "copy"):
+                pr = [p for p in rv["op"]["pl"]["p"] if p != "deref"]
+                npath = path
+                if pr:
+                    if len(pr) == 2 and isinstance(pr[0], dict) and "dc" in pr[0] and isinstance(pr[1], dict) and "f" in pr[1]:
+                        npath = ((pr[0]["dc"], pr[1]["f"]),) + path
+                    else:
+                        return None
+                sub = self.reaching_variants(rv["op"]["pl"]["l"], x, npath, depth + 1, budget, upto=self.blocks[x]["stmts"].index(found), collect=collect, within=within)
+                if sub is None:
+                    return None
+                out |= sub
+                continue
+            return None
         return out
 
     def _literal_defs(self, local, depth=0, seen=None):
